@@ -282,7 +282,7 @@ def run(R, only=None):
 
 
 def _run(R, only):
-    nw = 10 if R.tier == "quick" else 120
+    nw = 10 if R.tier == "quick" else 40
     ws = only or [gen_workload(R.rng, R.tier) for _ in range(nw)]
     jobs = []
     for wi, w in enumerate(ws):
@@ -314,7 +314,7 @@ def _run(R, only):
                 meta.append((wi, i, allowed, what, ps, d))
     # crash points taken from the system-call trace of a real run (no assumption on the order of the operations)
     from concurrent.futures import ThreadPoolExecutor
-    ntr = len(ws) if only else (4 if R.tier == "quick" else 40)
+    ntr = len(ws) if only else (4 if R.tier == "quick" else 12)
     traced_ops = 0
 
     def tr(wi):
